@@ -18,13 +18,15 @@ Hypotheses of the block-processor theorems, all of them about parameters:
     `do_block` of a compressor object (one `sqfs_copy` per worker thread) that lives as long as the processor; if its result
     depended on what the object compressed before, the image would depend on which worker got which block, i.e. on the
     schedule (`stateful_worker_schedule_dependent`).  The hypothesis is stated as `StatefulCodec.HistoryIndependent`
-    (Sqfs/Model/C02Worker.lean); under it a pool whose workers carry state is the pure pool (`stateful_pool_is_pure`,
-    `schedule_independent_stateful`).  For zlib / liblzma / liblz4 / libzstd it is part of the trusted base and is observed
+    (Sqfs/Model/C02Worker.lean); under it a pool whose workers carry state is the pure pool (`stateful_pool_is_pure`), and
+    the block processor run on such a pool (`runS`, Sqfs/Model/BlockProcWorkers.lean: the item with ticket `t` is worked by a
+    compressor copy in an arbitrary state) computes the reference's result (`schedule_independent_stateful`).  For zlib / liblzma / liblz4 / libzstd it is part of the trusted base and is observed
     on every run by harness/h_c02_comp.c (monitor `obsIndependent`).
 -/
 import Sqfs.Proofs.BPFinal
 import Sqfs.Proofs.BPSpecPack
 import Sqfs.Proofs.C02Worker
+import Sqfs.Proofs.BlockProcWorkers
 import Sqfs.Proofs.BPFailRun
 import Sqfs.Proofs.BPSPCor
 import Sqfs.Props.C17
@@ -40,6 +42,44 @@ def serial (P : Params) : Params := { P with ans := serialAns }
 
 /-- the queue-free, backlog-free reference of `Sqfs/Spec/BlockProcSpec.lean` -/
 abbrev runEager := packRef
+
+/-! ### the instance the examples are about -/
+
+/-- a codec that compresses exactly one block (`7 7 7 7 ↦ 7 4`) -/
+def exCodec : Codec :=
+  { cmp := fun x => if x = [7, 7, 7, 7] then some [7, 4] else none
+    unc := fun z => if z = [7, 4] then some [7, 7, 7, 7] else some z }
+
+theorem exCodec_ok : CodecOk exCodec := by
+  constructor
+  · intro x z h
+    simp only [exCodec] at h ⊢
+    split at h
+    · simp only [Option.some.injEq] at h; subst h; rename_i hx; simp [hx]
+    · cases h
+  · intro x z h
+    simp only [exCodec] at h
+    split at h
+    · simp only [Option.some.injEq] at h; subst h; rename_i hx; simp [hx]
+    · cases h
+
+def exP : Params := { B := 4, codec := exCodec, h := fun d => d.foldl (fun a b => a * 31 + b.toUInt32) 7 }
+
+/-- six files, block size 4: multi-block files, a compressible file, a short file, a file with a hole, the first file
+again with `DONT_DEDUPLICATE` (flag 8) and once more without -/
+def exFiles : List InFile :=
+  [⟨0, [1, 2, 3, 4, 5, 6, 7, 8, 9, 10]⟩, ⟨0, [7, 7, 7, 7, 7, 7, 7, 7, 1]⟩, ⟨0, [11, 12, 13]⟩, ⟨0, [0, 0, 0, 0, 9, 10]⟩,
+   ⟨8, [1, 2, 3, 4, 5, 6, 7, 8, 9, 10]⟩, ⟨0, [1, 2, 3, 4, 5, 6, 7, 8, 9, 10]⟩]
+
+/-- the side conditions of the theorems on the instance -/
+theorem exP_side : 0 < exP.B ∧ exP.B < 2 ^ 24 ∧ (∀ f ∈ exFiles, f.flags &&& Consts.blkUserSettable = f.flags) ∧
+    exP.byteCompare = true ∧ ∀ x z, exP.codec.cmp x = some z → 0 < z.length := by
+  refine ⟨by decide, by decide, by decide, rfl, ?_⟩
+  intro x z h
+  simp only [exP, exCodec] at h
+  split at h
+  · simp only [Option.some.injEq] at h; subst h; decide
+  · cases h
 
 /-! ### backlog -/
 
@@ -140,11 +180,29 @@ theorem run_eq_specPack_partial (P : Params) (hpos : ∀ x z, P.codec.cmp x = so
 
 /-! ### schedules and worker counts: composition with C09 -/
 
+/-- **what the composition with C09 rests on**, stated without any packaging: in every state the model of `threadpool.c`
+can reach — `n` workers, any schedule, spurious wake-ups, no failing callback — in which the main thread is between two API
+calls (or has returned from `destroy`), the value its last call returned is the value `threadpool_serial.c` returns for the
+same call history.  All the schedule-independence content of the threaded theorems below is this fact, i.e.
+`Sqfs.C09.refines_serial`. -/
+theorem pool_last_answer_is_serial {cfg : Pool.Cfg} {n : Nat} {s : Pool.State} (hok : ∀ d, cfg.rcOf d = 0)
+    (hr : Pool.Reachable cfg n s) (hidle : s.main = .idle ∨ s.main = .finished) :
+    (s.rets.getLast?).getD .destroyed = serialAnsHist s.calls := by
+  have href := Sqfs.C09.refines_serial hok hr hidle
+  have hrc : cfg.rcOf = rc0 := funext hok
+  unfold serialAnsHist
+  rw [href, hrc]
+
 /-- `beh` (the value the pool returns for the last call of a call history) is a behaviour of the **threaded** pool with
 `n` workers: for every call history, either some execution of `threadpool.c`'s model — any schedule of the `n` workers
 and the main thread, spurious wake-ups included, no failing callback — made exactly these calls and returned
 `beh calls` last; or `beh` answers what `threadpool_serial.c` answers (histories the block processor never produces,
-e.g. calls after `destroy`). -/
+e.g. calls after `destroy`).
+
+`RealisedBy` is a **packaging device**, not a source of generality: by `pool_last_answer_is_serial` both disjuncts force
+`beh calls` to be the serial pool's answer, so on every non-empty history a realised behaviour *is* `serialAnsHist`
+(`realised_unique`) — "for every `beh` with `RealisedBy n beh`" ranges over one function.  `n`, the schedule and the
+wake-ups enter through the executions the first disjunct quantifies over; what makes them irrelevant is C09's theorem. -/
 def RealisedBy (n : Nat) (beh : List Pool.Op → Pool.Ret) : Prop :=
   ∀ calls, (∃ (cfg : Pool.Cfg) (s : Pool.State), (∀ d, cfg.rcOf d = 0) ∧ Pool.Reachable cfg n s ∧
               (s.main = .idle ∨ s.main = .finished) ∧ s.calls = calls ∧ s.rets.getLast? = some (beh calls)) ∨
@@ -167,6 +225,17 @@ theorem realised_eq_serial (n : Nat) (beh : List Pool.Op → Pool.Ret) (h : Real
     rw [← hcalls, ← hrc, ← href, hlast, hcalls]
     rfl
   · exact hs
+
+/-- … so a realised behaviour is the serial pool's on every non-empty call history: the quantifier over `beh` in the
+theorems below ranges over exactly this function -/
+theorem realised_unique (n : Nat) (beh : List Pool.Op → Pool.Ret) (h : RealisedBy n beh) (calls : List Pool.Op) (op : Pool.Op) :
+    beh (calls ++ [op]) = serialAnsHist (calls ++ [op]) := by
+  have h2 := congrFun (congrFun (realised_eq_serial n beh h) ⟨calls, [], _, rfl⟩) op
+  simp only [behAns] at h2
+  rw [h2]
+  unfold serialAns serialAnsHist
+  rw [Pool.Serial.run_append]
+  rfl
 
 /-- **`schedule_independent`.**  Run the block processor on top of *any* behaviour of the threaded pool — any number
 of workers, any schedule, with spurious wake-ups — as long as no callback fails: the result is the serial pool's,
@@ -293,18 +362,49 @@ theorem stateful_pool_is_pure {σ : Type} (P : Params) (c : StatefulCodec σ) (h
     workItems P c asg st id items = items.map (processBlock { P with codec := c.pure }) :=
   workItems_pure P c hi asg items st id
 
-/-- **`schedule_independent_stateful`.**  `schedule_independent` with the hypothesis spelled out: a compressor object with
-private state whose `do_block` is history independent (and whose pure form meets the codec contract), any number of
-workers, any assignment of blocks to workers, any schedule of the pool, any backlog — the worked items are the pure
-pool's and the run is the reference's. -/
+/-- a history-independent compressor **with real state**: the object counts its `do_block` calls (as a `z_stream` keeps
+`total_in`), the result does not look at the counter; its pure form is `exCodec` -/
+def cntCodec : StatefulCodec Nat :=
+  { init := 0
+    doBlock := fun s x => (s + 1, if x = [7, 7, 7, 7] then some [7, 4] else none)
+    unc := fun z => if z = [7, 4] then some [7, 7, 7, 7] else some z }
+
+/-- the joint instance of the contract hypotheses: `cntCodec` is history independent, its state does change, and its pure
+form meets `CodecOk` -/
+example : cntCodec.HistoryIndependent ∧ (cntCodec.doBlock 0 [1]).1 ≠ cntCodec.init ∧ CodecOk cntCodec.pure :=
+  ⟨fun _ _ => rfl, by decide, exCodec_ok⟩
+
+/-- instance of `stateful_pool_is_pure` (hypothesis discharged, non-trivial state): two workers taking tickets alternately,
+both starting with a counter of 5 -/
+example : workItems exP cntCodec (fun t => t % 2) (fun _ => 5) 0
+      [{ flags := Consts.blkFirstBlock, data := [7, 7, 7, 7], inode := some 0, index := 0 },
+       { flags := Consts.blkLastBlock, data := [6, 7], inode := some 0, index := 1 }] =
+    [{ flags := Consts.blkFirstBlock, data := [7, 7, 7, 7], inode := some 0, index := 0 },
+     { flags := Consts.blkLastBlock, data := [6, 7], inode := some 0, index := 1 }].map
+      (processBlock { exP with codec := cntCodec.pure }) :=
+  stateful_pool_is_pure exP cntCodec (fun _ _ => rfl) (fun t => t % 2) (fun _ => 5) 0 _
+
+/-- **`schedule_independent_stateful`.**  `schedule_independent` for the block processor **run on a pool whose workers carry
+compressor state** (`runS`, Model/BlockProcWorkers.lean: the main-thread state machine of Model/BlockProc.lean with `submit`
+storing the item as worked by a copy of the compressor object `c` in state `κ t`, `t` the item's ticket).  `κ` is arbitrary:
+it stands for the number of workers, the assignment of blocks to workers, the initial states and everything a copy
+compressed before — whichever copy takes a ticket, in whatever state.  If `do_block` is history independent (and the pure
+form meets the codec contract), then over any behaviour of the threaded pool, for every backlog, the run is the
+reference's.  (`hi` is what the proof uses: without it the statement is false, `stateful_worker_schedule_dependent`.  That
+`runS` is the machine of Model/BlockProc.lean when the state is ignored is `Sqfs.BlockProc.runK_const`.) -/
 theorem schedule_independent_stateful {σ : Type} (P : Params) (c : StatefulCodec σ) (hi : c.HistoryIndependent)
     (hc : CodecOk c.pure) (hB0 : 0 < P.B) (hB : P.B < 2 ^ 24) (n : Nat) (beh : List Pool.Op → Pool.Ret)
-    (h : RealisedBy n beh) (mb : Nat) (files : List InFile) :
-    (∀ (asg : Nat → Nat) (st : Nat → σ) (id : Nat) (items : List Blk),
-        workItems P c asg st id items = items.map (processBlock { P with codec := c.pure })) ∧
-    run { P with codec := c.pure, ans := behAns beh } mb files = runEager (serial { P with codec := c.pure }) files :=
-  ⟨fun asg st id items => stateful_pool_is_pure P c hi asg st id items,
-   (schedule_independent { P with codec := c.pure } hc hB0 hB n beh h mb files).2⟩
+    (h : RealisedBy n beh) (κ : Nat → σ) (mb : Nat) (files : List InFile) :
+    runS { P with ans := behAns beh } c κ mb files = runEager (serial { P with codec := c.pure }) files := by
+  rw [runS_pure _ c hi κ mb files false]
+  exact (schedule_independent { P with codec := c.pure } hc hB0 hB n beh h mb files).2
+
+/-- instance of `schedule_independent_stateful`, all hypotheses discharged: the counting compressor, every copy in a
+different state (`κ t = 3 t + 1`), 2 workers, backlog 3, the six files of the instance -/
+example : runS { exP with ans := behAns serialAnsHist } cntCodec (fun t => 3 * t + 1) 3 exFiles =
+    runEager (serial { exP with codec := cntCodec.pure }) exFiles :=
+  schedule_independent_stateful exP cntCodec (fun _ _ => rfl) exCodec_ok exP_side.1 exP_side.2.1 2 serialAnsHist
+    (fun _ => Or.inr rfl) (fun t => 3 * t + 1) 3 exFiles
 
 /-- a compressor whose object remembers a "strategy": a block of 4 bytes or more sets it to 1 and is stored as
 `[first byte, length]`; a shorter block is compressed *with whatever strategy the object was left with* (the shape of
@@ -328,13 +428,22 @@ def imageOf (P : Params) (worked : List Blk) : Option (List UInt8) :=
 /-- **`stateful_worker_schedule_dependent`.**  Without history independence the image depends on the schedule: the leaky
 compressor, two workers, the same two blocks — when worker 0 compresses both (what the serial pool does) the short block
 is stored as `[1]`, when worker 1 takes the short block it is stored as `[0]`; the data areas differ.  (And the leaky
-compressor is indeed not history independent.) -/
+compressor is indeed not history independent.)  The last three conjuncts say the same about **whole runs** of the block
+processor on the pool of stateful workers (`runS`; serial pool answers, backlog 3, one `DONT_FRAGMENT` file of 6 bytes): the
+states the assigned copies are in at tickets 0 and 1 are `[0, 1]` under the first assignment and `[0, 0]` under the second
+(`ticketStates`), and the two runs write different output files. -/
 theorem stateful_worker_schedule_dependent :
     leakyItems = (feFiles 4 0 [⟨Consts.blkDontFragment, [5, 5, 5, 5, 6, 7]⟩]).toOption.getD [] ∧
     imageOf leakyP (workItems leakyP leakyCodec (fun _ => 0) (fun _ => 0) 0 leakyItems) = some [5, 4, 1] ∧
     imageOf leakyP (workItems leakyP leakyCodec (fun t => t) (fun _ => 0) 0 leakyItems) = some [5, 4, 0] ∧
-    ¬ leakyCodec.HistoryIndependent := by
-  refine ⟨by decide +kernel, by decide +kernel, by decide +kernel, ?_⟩
+    ¬ leakyCodec.HistoryIndependent ∧
+    (ticketStates leakyCodec (fun _ => 0) (fun _ => 0) 0 leakyItems = [0, 1] ∧
+     ticketStates leakyCodec (fun t => t) (fun _ => 0) 0 leakyItems = [0, 0]) ∧
+    (runS leakyP leakyCodec (fun t => [0, 1].getD t 0) 3 [⟨Consts.blkDontFragment, [5, 5, 5, 5, 6, 7]⟩]).toOption.map (·.file) =
+      some [5, 4, 1] ∧
+    (runS leakyP leakyCodec (fun t => [0, 0].getD t 0) 3 [⟨Consts.blkDontFragment, [5, 5, 5, 5, 6, 7]⟩]).toOption.map (·.file) =
+      some [5, 4, 0] := by
+  refine ⟨by decide +kernel, by decide +kernel, by decide +kernel, ?_, by decide +kernel, by decide +kernel, by decide +kernel⟩
   intro h
   have := h 1 [6, 7]
   revert this
@@ -423,6 +532,21 @@ theorem failed_item_back_status_nonzero {cfg : Pool.Cfg} {n : Nat} {s : Pool.Sta
     rw [List.nodup_append] at hnd
     exact hnd.2.2 t h1 t (by simp only [List.mem_append]; exact Or.inr (Or.inr (Or.inl h))) rfl
 
+/-- instance (all hypotheses discharged, `rcOf` not constantly 0): two workers, items 0 and 1, the callback fails on item 0
+(`-3`), worker 1 overtakes worker 0, item 0 is dequeued — ticket 0 has been returned, it carried data 0, its callback
+failed: the status is non-zero -/
+example :
+    let cfg : Pool.Cfg := ⟨true, fun d => if d = 0 then -3 else 0⟩
+    let sched : List Pool.Choice :=
+      [.main (.call (.submit 0)), .main (.cont false), .main (.call (.submit 1)), .main (.cont false),
+       .worker 0 false, .worker 1 false, .worker 1 false, .worker 1 false, .worker 0 false, .worker 0 false,
+       .main (.call .dequeue), .main (.cont false)]
+    (Pool.run cfg (Pool.init 2) sched).returned = [0] ∧ (Pool.run cfg (Pool.init 2) sched).submitted = [0, 1] ∧
+      (Pool.run cfg (Pool.init 2) sched).status ≠ 0 := by
+  intro cfg sched
+  exact ⟨by decide, by decide,
+    failed_item_back_status_nonzero (Sqfs.C09.run_reachable cfg 2 sched) 0 (by decide) 0 (by decide) (by decide)⟩
+
 /-- non-vacuity of `failure_deterministic_partial`: the witness instance (five blocks, the compressor fails on the first),
 `max_backlog` 3 and 40 — the healthy run succeeds, its first callback invocation is on the marked block -/
 example :
@@ -451,11 +575,11 @@ example :
 
 What is **proved** about the environment clause, and what is only **exercised**:
 
-* proved, about models: (1) `times_depend_only_on_source_date_epoch` — in the model of where time stamps come from
-  (`Model/BuildEnv.lean`) they are a function of the input, the options and `SOURCE_DATE_EPOCH`; the model simply has no
-  path from the clock, `TZ`, the locale, the umask or the working directory to a time stamp, so this theorem is a statement
-  about the *model*, true by its construction; that the model is the code is decided by the runs.  (2)
-  `tree_order_bytewise` — the order of directory entries (hence of inode numbers and of the file list) is fixed by the
+* definition-level (no assurance beyond the model's shape): `times_depend_only_on_source_date_epoch` — in the model of
+  where time stamps come from (`Model/BuildEnv.lean`) they are a function of the input, the options and
+  `SOURCE_DATE_EPOCH`; the model simply has no path from the clock, `TZ`, the locale, the umask or the working directory to
+  a time stamp, so the statement cannot fail for it; this part of the clause counts as exercised (below), not proved.
+* proved, about a model: `tree_order_bytewise` — the order of directory entries (hence of inode numbers and of the file list) is fixed by the
   *bytes* of the names: the model of `insert_sorted` (fstree.c) compares with `strcmp` (`nameLt`, a strict total order),
   and the list it builds is the only strictly sorted arrangement (cites `Sqfs.C11.insertSorted_sorted`); no collation
   order, case folding or character class enters.
@@ -468,11 +592,15 @@ What is **proved** about the environment clause, and what is only **exercised**:
   (currently: none but the `isdigit`/`isspace` macros; no `setlocale`; the only environment variable asked for is
   `SOURCE_DATE_EPOCH`). -/
 
-/-- **Environment clause (model level).**  The time stamps of an image — the super block's `modification_time` and
-every inode's `mod_time` — are the same in two process environments that agree on `SOURCE_DATE_EPOCH`, whatever the
-wall clock, time zone, locale, umask and working directory are.  (True by construction of `Model/BuildEnv.lean`, which has no
-other input; that the tools consult nothing else is decided by the tool-level runs of tools/checks/c02.py with a faked
-clock, a hostile locale shim and varied environments.) -/
+/-- **Environment clause (model level) — definition-level.**  The time stamps of an image — the super block's
+`modification_time` and every inode's `mod_time` — are the same in two process environments that agree on
+`SOURCE_DATE_EPOCH`, whatever the wall clock, time zone, locale, umask and working directory are.
+
+This is **not a proof obligation that could fail**: `imageTimes` (Model/BuildEnv.lean) reads `env.sourceDateEpoch` and no
+other field of `ProcessEnv`, so the statement holds by the shape of the model whatever the code does (with
+`--defaults mtime=` it is `rfl` for *any* two environments).  It is kept as the precise wording of the clause; the clause
+itself counts as **exercised, not proved**: that the tools consult nothing else is decided by the tool-level runs of
+tools/checks/c02.py with a faked clock, a hostile locale shim and varied environments. -/
 theorem times_depend_only_on_source_date_epoch (e1 e2 : ProcessEnv) (o : Options) (inputs : List Int)
     (h : e1.sourceDateEpoch = e2.sourceDateEpoch) : imageTimes e1 o inputs = imageTimes e2 o inputs := by
   simp [imageTimes, superMtime, inodeMtime, defaultMtime, h]
@@ -485,6 +613,13 @@ theorem source_date_epoch_default (s : List UInt8) (h : sdeDigits s 0 = none) :
   | nil => rfl
   | cons a t => simp [sourceDateEpoch, h]
 
+/-- instances (hypothesis discharged): `SOURCE_DATE_EPOCH=ab` (not a number) and `=4294967296` (does not fit 32 bits) give
+the time stamps of an unset variable -/
+example : sourceDateEpoch (some [0x61, 0x62]) = sourceDateEpoch none ∧
+    sourceDateEpoch (some [52, 50, 57, 52, 57, 54, 55, 50, 57, 54]) = sourceDateEpoch none :=
+  ⟨source_date_epoch_default [0x61, 0x62] (by decide),
+   source_date_epoch_default [52, 50, 57, 52, 57, 54, 55, 50, 57, 54] (by decide)⟩
+
 /-- **`tree_order_bytewise`** (environment clause, locale).  The children list `insert_sorted` (fstree.c) builds from nodes with
 pairwise different names — in whatever order they arrive — is the *only* arrangement of these nodes that is strictly
 sorted by `strcmp` (`nameLt`: lexicographic on unsigned bytes).  So the order of directory entries, and with it the inode
@@ -494,6 +629,17 @@ theorem tree_order_bytewise (nodes : List Sqfs.FsTree.TNode) (hnd : (nodes.map S
     l = nodes.foldl (fun acc n => Sqfs.FsTree.insertSorted n acc) [] :=
   Sqfs.FsTree.sorted_children_unique nodes hnd l hp hs
 
+/-- instance (all hypotheses discharged): the nodes `a`, `B`, `_x` in the order a case-folding collation would produce; the
+byte-sorted arrangement `B`, `_x`, `a` is a permutation of them and strictly sorted, hence it *is* what `insert_sorted` builds -/
+example :
+    [Sqfs.FsTree.TNode.mk [0x42] default [], .mk [0x5f, 0x78] default [], .mk [0x61] default []] =
+      [Sqfs.FsTree.TNode.mk [0x61] default [], .mk [0x42] default [], .mk [0x5f, 0x78] default []].foldl
+        (fun acc n => Sqfs.FsTree.insertSorted n acc) [] :=
+  tree_order_bytewise [Sqfs.FsTree.TNode.mk [0x61] default [], .mk [0x42] default [], .mk [0x5f, 0x78] default []] (by decide)
+    [Sqfs.FsTree.TNode.mk [0x42] default [], .mk [0x5f, 0x78] default [], .mk [0x61] default []]
+    (List.perm_append_comm (l₁ := [Sqfs.FsTree.TNode.mk [0x42] default [], .mk [0x5f, 0x78] default []])
+      (l₂ := [Sqfs.FsTree.TNode.mk [0x61] default []])) (by decide)
+
 /-- non-vacuity: `B`, `a`, `_x` arrive in the order a case-folding, punctuation-blind collation would produce
 (`a`, `B`, `_x`); `insert_sorted` yields the byte order `B` (0x42) < `_x` (0x5f) < `a` (0x61) -/
 example :
@@ -501,32 +647,6 @@ example :
       (fun acc n => Sqfs.FsTree.insertSorted n acc) []).map Sqfs.FsTree.TNode.name = [[0x42], [0x5f, 0x78], [0x61]] := by decide
 
 /-! ### non-vacuity: the hypotheses are satisfiable on a non-trivial instance -/
-
-/-- a codec that compresses exactly one block (`7 7 7 7 ↦ 7 4`) -/
-def exCodec : Codec :=
-  { cmp := fun x => if x = [7, 7, 7, 7] then some [7, 4] else none
-    unc := fun z => if z = [7, 4] then some [7, 7, 7, 7] else some z }
-
-theorem exCodec_ok : CodecOk exCodec := by
-  constructor
-  · intro x z h
-    simp only [exCodec] at h ⊢
-    split at h
-    · simp only [Option.some.injEq] at h; subst h; rename_i hx; simp [hx]
-    · cases h
-  · intro x z h
-    simp only [exCodec] at h
-    split at h
-    · simp only [Option.some.injEq] at h; subst h; rename_i hx; simp [hx]
-    · cases h
-
-def exP : Params := { B := 4, codec := exCodec, h := fun d => d.foldl (fun a b => a * 31 + b.toUInt32) 7 }
-
-/-- six files, block size 4: multi-block files, a compressible file, a short file, a file with a hole, the first file
-again with `DONT_DEDUPLICATE` (flag 8) and once more without -/
-def exFiles : List InFile :=
-  [⟨0, [1, 2, 3, 4, 5, 6, 7, 8, 9, 10]⟩, ⟨0, [7, 7, 7, 7, 7, 7, 7, 7, 1]⟩, ⟨0, [11, 12, 13]⟩, ⟨0, [0, 0, 0, 0, 9, 10]⟩,
-   ⟨8, [1, 2, 3, 4, 5, 6, 7, 8, 9, 10]⟩, ⟨0, [1, 2, 3, 4, 5, 6, 7, 8, 9, 10]⟩]
 
 example : 0 < exP.B ∧ exP.B < 2 ^ 24 ∧ ∀ f ∈ exFiles, f.flags &&& Consts.blkUserSettable = f.flags := by decide
 
@@ -581,6 +701,46 @@ example :
       s.rets.getLast? = some (.deq (some 1)) ∧ s.started.map (·.1) = [1, 0] :=
   ⟨Sqfs.C09.run_reachable _ _ _, by decide⟩
 
+/-! ### the theorems applied to the instance, every hypothesis discharged (`exCodec_ok`, `exP_side`) -/
+
+example : run (serial exP) 3 exFiles = runEager (serial exP) exFiles :=
+  run_eq_spec exP exCodec_ok exP_side.1 exP_side.2.1 3 exFiles
+example : run (serial exP) 3 exFiles (sy := true) = runEager (serial exP) exFiles :=
+  run_sync_eq_spec exP exCodec_ok exP_side.1 exP_side.2.1 3 exFiles
+example : run (serial exP) 3 exFiles = run (serial exP) 40 exFiles :=
+  backlog_independent exP exCodec_ok exP_side.1 exP_side.2.1 3 40 exFiles
+example : ∃ out, run (serial exP) 3 exFiles = .ok out :=
+  run_ok exP exCodec_ok exP_side.1 exP_side.2.1 3 exFiles exP_side.2.2.1
+example : ∃ out, run (serial exP) 3 exFiles = .ok out ∧
+    out.view = specView exP.pre (Sqfs.Pack.specPack (toPackParams exP) (toPackFiles exFiles)) :=
+  run_eq_specPack exP exCodec_ok exP_side.2.2.2.2 exP_side.2.2.2.1 exP_side.1 exP_side.2.1 3 exFiles exP_side.2.2.1
+/-- the threaded theorems: 2 and 4 workers, backlogs 3 and 40, the behaviour every realised behaviour is (`realised_unique`) -/
+example : run { exP with ans := behAns serialAnsHist } 3 exFiles = run { exP with ans := behAns serialAnsHist } 40 exFiles :=
+  jobs_independent exP exCodec_ok exP_side.1 exP_side.2.1 2 4 serialAnsHist serialAnsHist (fun _ => Or.inr rfl)
+    (fun _ => Or.inr rfl) 3 40 exFiles
+example : ∃ out, run { exP with ans := behAns serialAnsHist } 3 exFiles = .ok out ∧
+    out.view = specView exP.pre (Sqfs.Pack.specPack (toPackParams exP) (toPackFiles exFiles)) :=
+  threaded_eq_specPack exP exCodec_ok exP_side.2.2.2.2 exP_side.2.2.2.1 exP_side.1 exP_side.2.1 2 serialAnsHist
+    (fun _ => Or.inr rfl) 3 exFiles exP_side.2.2.1
+example := threaded_readback exP exCodec_ok exP_side.2.2.2.2 exP_side.2.2.2.1 exP_side.1 exP_side.2.1 2 serialAnsHist
+    (fun _ => Or.inr rfl) 3 exFiles exP_side.2.2.1 1 (by decide)
+example := threaded_directives exP exCodec_ok exP_side.2.2.2.2 exP_side.2.2.2.1 exP_side.1 exP_side.2.1 2 serialAnsHist
+    (fun _ => Or.inr rfl) 3 exFiles exP_side.2.2.1
+/-- an API script: a file, a manual submission, a `sync` -/
+example : runOps true { exP with ans := behAns serialAnsHist } 3 [.file ⟨0, [1, 2, 3, 4, 5]⟩, .submit 0 [1, 2], .sync] =
+    runOps true (serial exP) 3 [.file ⟨0, [1, 2, 3, 4, 5]⟩, .submit 0 [1, 2], .sync] :=
+  script_schedule_independent true exP 2 serialAnsHist (fun _ => Or.inr rfl) 3 _
+/-- `pool_last_answer_is_serial` on a real execution of the threaded pool (the one shown above: two workers, worker 1
+overtakes worker 0): its last answer, item 1, is the serial pool's answer for the same four calls -/
+example :
+    let cfg : Pool.Cfg := ⟨true, fun _ => 0⟩
+    let s := Pool.run cfg (Pool.init 2)
+      [.main (.call (.submit 0)), .main (.cont false), .main (.call (.submit 1)), .main (.cont false),
+       .worker 0 false, .worker 1 false, .worker 1 false, .worker 1 false, .worker 0 false, .worker 0 false,
+       .main (.call .dequeue), .main (.cont false), .main (.call .dequeue), .main (.cont false)]
+    (s.rets.getLast?).getD .destroyed = serialAnsHist s.calls ∧ s.rets.getLast? = some (.deq (some 1)) := by
+  intro cfg s
+  exact ⟨pool_last_answer_is_serial (fun _ => rfl) (Sqfs.C09.run_reachable _ _ _) (Or.inl (by decide)), by decide⟩
 /-- two process environments that differ in everything but `SOURCE_DATE_EPOCH` -/
 example : imageTimes ⟨some [49, 50], 1700000000, [85, 84, 67], [67], 18, [47]⟩ {} [5, -1] =
           imageTimes ⟨some [49, 50], 42, [], [], 63, []⟩ {} [5, -1] ∧
